@@ -6,7 +6,6 @@ import (
 	"io"
 	"net"
 	"net/http"
-	"os"
 	"regexp"
 	"strconv"
 	"strings"
@@ -404,9 +403,6 @@ func (b *azBackend) Do(req *http.Request) (*http.Response, error) {
 	up := b.upPlans[hash]
 	obj, ok := b.objects[prefix+"/"+hash]
 	b.mu.Unlock()
-	if os.Getenv("C12_DEBUG_AZ") != "" {
-		fmt.Fprintf(os.Stderr, "AZ %s %s range=%q/%q plan=%v have=%v len=%d\n", req.Method, req.URL.Path[len(req.URL.Path)-12:], rawHeader(req, "x-ms-range"), req.Header.Get("Range"), p, ok, len(obj))
-	}
 	notFound := func() {
 		set(404, "The specified blob does not exist.")
 		resp.Header.Set("x-ms-error-code", "BlobNotFound")
